@@ -101,7 +101,7 @@ def replay_groups(groups, root, mode, seed):
         try:
             for b in behs:
                 replay_one(col, w, b, names, mode, seed)
-            if mode in ('C01', 'C11'):
+            if mode in ('C01', 'C03', 'C11'):
                 representation_twins(col, w, len(b0['K']), mode, seed + key[0] * 100 + key[1] * 10 + key[2])
             if mode == 'C04':
                 dark_model_stage(col, root, b0, behs[:300], names, seed + key[0] + key[1] + key[2])
